@@ -214,6 +214,92 @@ def oracle(c, o):
     return None
 
 
+# ---------------------------------------------------------------- session level: a peer that never answers (stack.rs hbpeer)
+# PING + timeout lies beyond the session's 1 s minimum lifespan (SessionRegulator keeps a failed session's stream open until then)
+HB_IVL, HB_TMO = 500, 700
+
+
+def session_cases(tier):
+    """a raw peer completes a NULL handshake with a real DEALER/PULL socket and never answers its PING: idle, while the
+    local application keeps writing, while the peer keeps sending data frames"""
+    out = []
+    combos = [("DEALER", "ROUTER", "idle"), ("DEALER", "ROUTER", "app_writes"), ("PULL", "PUSH", "peer_data"), ("DEALER", "ROUTER", "peer_data")]
+    if tier != "quick":
+        combos += [("DEALER", "ROUTER", "app_writes"), ("PULL", "PUSH", "idle"), ("SUB", "PUB", "peer_data")]
+    for (stype, peer, mode) in combos:
+        hs = E.greeting("NULL", 0) + E.ready(peer)
+        data = E.frame([0x55] * 12) if stype != "DEALER" else E.frame([], more=True) + E.frame([0x55] * 12)
+        out.append({"k": "hbpeer", "stype": stype, "peer": peer, "mode": mode, "period_ms": 100, "observe_ms": 3600,
+                    "opts": {"HEARTBEAT_IVL": HB_IVL, "HEARTBEAT_TIMEOUT": HB_TMO}, "hs": [E.raw(hs)], "data": [E.raw(data)],
+                    "threads": 2})
+    return out
+
+
+def session_timeline(c):
+    """the nominal timeline handed to the model (ms): handshake bytes at 5, ticks every HEARTBEAT_IVL, after the first PING
+    its own write, then the scenario's traffic every period, the backstop polled after every event and at its deadline"""
+    evs = [("net", c["hs"], 5)]
+    ping = None
+    t = 0
+    horizon = c["observe_ms"]
+    times = sorted(set(list(range(HB_IVL, horizon, HB_IVL)) + list(range(0, horizon, c["period_ms"]))))
+    for t in times:
+        if t % HB_IVL == 0 and t > 0:
+            evs.append(("tick", t))
+            if ping is None and t - 5 >= HB_IVL:
+                ping = t
+                evs.append(("wrote", t))                 # the PING's own write
+        if ping is not None and t > ping and t % c["period_ms"] == 0:
+            if c["mode"] == "app_writes":
+                evs.append(("wrote", t))
+            elif c["mode"] == "peer_data":
+                evs.append(("net", c["data"], t))
+        if ping is not None:
+            if t >= ping + HB_TMO and not any(e == ("deadline", ping + HB_TMO) for e in evs):
+                evs.append(("deadline", ping + HB_TMO))
+            evs.append(("deadline", max(t, ping)))
+    return evs
+
+
+def session_coq(c):
+    cfg = E.mk_cfg(server=True, stype=c["stype"], hb_ivl_ms=HB_IVL, hb_timeout_ms=HB_TMO)
+    parts = []
+    for e in session_timeline(c):
+        if e[0] == "net":
+            parts.append("(SNetE [%s] %d)" % ("; ".join(E.piece_coq(p) for p in e[1]), e[2]))
+        else:
+            parts.append("(%s %d)" % ({"tick": "STickE", "deadline": "SDeadlineE", "wrote": "SWroteE"}[e[0]], e[1]))
+    return "(%s, [%s], %d, %d, %d)" % (E.cfg_coq(cfg), "; ".join(parts), HB_IVL, 60, 350)
+
+
+def session_oracle(c, o):
+    """the property text, judged on the real socket: a PING no sooner than HEARTBEAT_IVL and no later than two intervals
+    after the last activity (the handshake), and the connection closed if no PONG arrives within HEARTBEAT_TIMEOUT of that
+    PING - whatever else is written or received meanwhile"""
+    r = o["rows"][0]
+    if r[0] != 97 or len(r) != 6:
+        return "scenario crashed or hung: %s" % o
+    _, pinged, closed, ping_ms, win, sent = r
+    if not pinged:
+        return "no PING within %d ms of an idle connection (HEARTBEAT_IVL %d)" % (c["observe_ms"], HB_IVL)
+    if ping_ms + 60 < HB_IVL:
+        return "PING %d ms after the last activity, sooner than HEARTBEAT_IVL %d" % (ping_ms, HB_IVL)
+    if ping_ms > 2 * HB_IVL + 350:
+        return "PING only %d ms after the last activity, later than two HEARTBEAT_IVL (%d)" % (ping_ms, 2 * HB_IVL)
+    if not closed:
+        return ("the peer never answered the PING but the connection was still open %d ms after it (HEARTBEAT_TIMEOUT %d, mode %s, "
+                "%d messages written by the application meanwhile)" % (c["observe_ms"] - ping_ms, HB_TMO, c["mode"], sent))
+    if win + 60 < HB_TMO:
+        return "connection closed %d ms after the PING, before HEARTBEAT_TIMEOUT %d" % (win, HB_TMO)
+    if win > HB_TMO + 350:
+        return "connection closed only %d ms after the unanswered PING (HEARTBEAT_TIMEOUT %d, mode %s)" % (win, HB_TMO, c["mode"])
+    return None
+
+
+def session_strip(c):
+    return {k: c[k] for k in ("k", "stype", "mode", "period_ms", "observe_ms", "opts", "hs", "data", "threads")}
+
+
 def main(argv):
     tier, seed = C.tier_and_seed(argv)
     res = C.Result(PROP, tier, seed)
@@ -235,7 +321,18 @@ def main(argv):
                          "(fun '(c, o, i) => eng_model c o i)", oracle,
                          nontrivial=lambda c, o: any(r[0] in (1, 8) for call in split_calls(o["rows"])[2:] for r in call),
                          theorems_note=THEOREMS, strip=c04.strip)
+    scs = session_cases(tier)
+    for c in scs:
+        res.count("session:%s:%s" % (c["stype"], c["mode"]))
+    C.differential(res, PROP, "stack", scs, session_coq, E.REQ, "hbs_mismatches",
+                   "(fun '(c, es, i, lo, hi) => hb_session_model c es)", session_oracle,
+                   nontrivial=lambda c, o: o["rows"][0][0] == 97 and o["rows"][0][1] == 1,
+                   theorems_note="C19_session_timeout_not_early, C19_session_dead_peer_closed_at_deadline, C19_session_dead_peer_closed_despite_traffic",
+                   strip=session_strip, tag="session", shards=2)
     return res.finish(assumptions=[
+        "session level (Model/HbActor.v): the actor's interval and backstop timers are events of the model; tied by raw-peer scenarios "
+        "on real sockets (tokio backend) with 60 ms / 350 ms slack around HEARTBEAT_IVL=500, HEARTBEAT_TIMEOUT=700; tokio timers fire no "
+        "earlier than asked (premise)",
         "activity stamps inside the real engine come from Instant::now(): the harness detects each stamp (sentinel) and replaces it "
         "by the scripted virtual time through verif_set_last_activity (clock injection); the real actor's calls to record_activity() "
         "after writes are represented by 'wrote' events",
